@@ -142,4 +142,34 @@ def partitionEL (gcd : α) (dbn : List α) (m : Nat) : List α → α
 
 end tranche
 
+section trancheFn
+variable {α : Type} [Zero α] [One α] [Add α] [Sub α] [Mul α] [Div α] [Min α]
+
+/-- the tranche loss function as coded in the loops of `tranche_surv_prob_recursion` /
+`tranche_surv_prob_adj_binomial`: `tranche_loss = min(loss, k2) - min(loss, k1)` -/
+def trancheLoss (loss k1 k2 : α) : α := min loss k2 - min loss k1
+
+/-- Σ over consecutive attachment points of the tranche loss function at one loss level -/
+def partitionLoss (loss : α) : List α → α
+  | k1 :: k2 :: ks => trancheLoss loss k1 k2 + partitionLoss loss (k2 :: ks)
+  | _ => 0
+
+/-- `CDSBasket.value_1f_gaussian_homo`: `basket_surv_curve[i_time] = 1.0;
+for i_to_default in range(n_to_default, num_credits + 1): basket_surv_curve[i_time] -= loss_dbn[i_to_default]` -/
+def basketSurv (dbn : List α) (nToDefault numCredits : Nat) : α :=
+  let a := dbn.toArray
+  ((List.range (numCredits + 1 - nToDefault)).map (· + nToDefault)).foldl (fun acc i => acc - getA a i) 1
+
+/-- the last two lines of `tr_surv_prob_lhp`, `elk = exp_min_lk(·, p, recovery, 1.0, beta)`:
+`value = 1.0 - (elk2 - elk1) / (k2 - k1)` -/
+def trSurvLhpCore (elk : α → α) (k1 k2 : α) : α := 1 - (elk k2 - elk k1) / (k2 - k1)
+
+/-- width-weighted tranche expected losses `Σ (k_{j+1} - k_j)·(1 - q_j)` over consecutive attachment points, for any tranche
+survival function `q` -/
+def partitionOfSurv (q : α → α → α) : List α → α
+  | k1 :: k2 :: ks => (k2 - k1) * (1 - q k1 k2) + partitionOfSurv q (k2 :: ks)
+  | _ => 0
+
+end trancheFn
+
 end FinVerif.Model.C17
